@@ -93,7 +93,7 @@ pub fn exec(op: &str, args: &[&str], out: &mut Out) -> Option<()> {
             let r = no_panic(|| p.get(i));
             match r {
                 None => {
-                    out.fail("C12", format!("get({i}) on {s:?} panicked"));
+                    out.fail("C04,C12", format!("get({i}) on {s:?} panicked (the token list gives {:?})", ref_tokens(&s).get(i)));
                     "panic".into()
                 }
                 Some(t) => {
@@ -198,6 +198,49 @@ pub fn gen(tier: &str, rng: &mut Rng, emit: &mut dyn FnMut(String)) {
             emit(format!("spat {k} {x}"));
         }
         emit(format!("spat {m} {x}"));
+    }
+    // texts beyond the small scope as tokens of a 3-token pointer; every range form around them
+    for (i, s) in boundary_texts(tier).into_iter().enumerate() {
+        if i % 2 == 1 && tier != "thorough" {
+            continue;
+        }
+        let e = rfc_escape(&s);
+        let p = format!("/{e}/m/{e}");
+        let x = hex(p.as_bytes());
+        for a in 0..4usize {
+            emit(format!("get {a} {x}"));
+            emit(format!("rf {a} {x}"));
+            emit(format!("rt {a} {x}"));
+            emit(format!("rti {a} {x}"));
+        }
+        emit(format!("rr 1 3 {x}"));
+        emit(format!("ri 1 2 {x}"));
+        emit(format!("rb e0 u {x}"));
+        emit(format!("spat {} {x}", e.len() + 1));
+        emit(format!("spat {} {x}", e.len()));
+        emit(format!("spat {} {x}", e.len() + 3));
+    }
+    // pointers with many tokens; bounds around the count and around powers of two / ten
+    for n in MANY {
+        for tok in ["a", "", "ab~0"] {
+            let p: String = (0..n).map(|_| format!("/{tok}")).collect();
+            let x = hex(p.as_bytes());
+            for a in [0, 1, n / 2, n.saturating_sub(2), n - 1, n, n + 1, m] {
+                emit(format!("get {a} {x}"));
+                emit(format!("rf {a} {x}"));
+                emit(format!("rt {a} {x}"));
+                emit(format!("rti {a} {x}"));
+                for b in [0, n / 2, n - 1, n, n + 1, m] {
+                    emit(format!("rr {a} {b} {x}"));
+                    emit(format!("ri {a} {b} {x}"));
+                }
+                emit(format!("rb e{a} u {x}"));
+                emit(format!("rb i{a} e{n} {x}"));
+                emit(format!("rb u i{a} {x}"));
+            }
+            emit(format!("spat {} {x}", p.len() / 2));
+            emit(format!("spat {} {x}", p.len()));
+        }
     }
     // long pointers with random bounds
     let n = if tier == "thorough" { 2_000 } else { 100 };
